@@ -10,6 +10,13 @@ NOTES = "All checks rebuild from /repo's working tree through bin/prepare (instr
 NOT_APPLICABLE = {}
 A_NOTE = "Trusted: the vrt shims model Go's mutex/cond/channel/select/timer semantics faithfully (self-tests + repository tests pass on the instrumented build in passthrough mode); sequential consistency; scheduling points before acquire-type operations only; data races are left to a separate -race pass."
 CHECKS = {
+    "C19": {
+        "engine": "enumeration on gosched (deterministic schedule)",
+        "technique": "exhaustive enumeration of API call sequences (each run to exact quiescence on the controlled scheduler) x every held object x every public mutation, with a full re-read of the store after each mutation, plus a copy-on-write law on metadata copies",
+        "text": "Every sequence of <= 3 (thorough 4) calls over 10 API operations (Create, Update, Modify existing/new, UpdateWithConflicts, Get, List, Watch, WatchKind+bootstrap, metadata copies) on three flavours (inmem, runtime cache fed by a watch like the runtime does, remote loopback) collects every object the caller handed in or got back (arguments, callback arguments, results, list items, metadata Copy() and value copies; watch event objects are kept as read-only observers). Then each held object is mutated with each of 18 public mutations (labels/annotations set existing/new/delete/Do, finalizers add/remove first/last/set/element write, phase, version, owner, timestamps, spec incl. in-place slice write and append on a slice-valued typed spec) and after every single mutation the store (Get x3 + List, via the backend and via the flavour) and every other held object must render unchanged; finally two copies of each (over-allocated) metadata are mutated alternately and must not influence each other.",
+        "design_ref": "DESIGN.md 3/C19",
+        "note": "Trusted: the renderer covers every metadata field and the spec; writes through KV.Raw() are outside the public mutation API. Deterministic default schedule. Watch event objects are shared with the store by design and therefore only observed.",
+    },
     "C14": {
         "engine": "enumx + gosched (deterministic schedule)",
         "technique": "small-scope exhaustive enumeration of selector terms/queries x label maps at four evaluation sites vs an independent evaluator and algebraic laws; exhaustive histories of label changes with filtered lists and watches replayed at exact quiescence",
